@@ -18,16 +18,18 @@ for d in sorted(glob.glob(os.path.join(HERE, 'seeded', '*/'))):
             break
     rows.append((name, m['property'], m['needs_to_manifest'], sig, m.get('history', ''), m['detected_by_quick_check']))
 n = len(rows)
-first_miss = [r for r in rows if r[4]]
+def missed(h):
+    return h.startswith('missed') or 'would have missed' in h
+first_miss = [r for r in rows if missed(r[4])]
 txt = f'''### 9.4 Which checks catch which deliberate changes
 
 `./selftest [pattern]` applies every patch of `mutants/` (deliberate changes written by the builders, ≥ 2 per property,
 listed with their detecting oracle in the builders' reports) and of `seeded/*/patch.diff` to a scratch worktree and
 expects the property's quick check to print VIOLATION.
 
-**Independent seeded changes** ({n}, two rounds: at least two per property). Written by fresh sub-agents that saw only the
-property text and a scratch worktree, nothing of /verif; the second round was told what the first had tried and asked for
-a different weakness. Each was confirmed by the coordinator (`tools/seedkeep.sh`: the repository's suite passes with the
+**Independent seeded changes** ({n}, five rounds of one per property). Written by fresh sub-agents that saw only the
+property text and a scratch worktree, nothing of /verif; every later round was told what the earlier ones had tried and
+asked for a different weakness, in a different place or of a different kind. Each was confirmed by the coordinator (`tools/seedkeep.sh`: the repository's suite passes with the
 change, the agent's demonstration fails with it and passes without it, after rebasing the change onto /repo's HEAD)
 before the property's quick check was run against it; `seeded/<name>/meta.json` records what each needs and what was run.
 {len(first_miss)} of the {n} were **missed by the check as it stood** and each led to a stronger check (third column).
@@ -37,8 +39,10 @@ before the property's quick check was run against it; `seeded/<name>/meta.json` 
 '''
 for name, prop, needs, sig, hist, det in rows:
     col = f'`{sig}`' if sig else ''
-    if hist:
+    if hist and missed(hist):
         col = '**missed at first.** ' + hist + (f' Now: {col}' if sig else '')
+    elif hist:
+        col = hist
     if not det:
         col = '**MISSED** ' + hist
     txt += f'| `{name}` | {needs} | {col} |\n'
